@@ -95,7 +95,11 @@ def split_block(
             # edges remain in the original block -- with the exception of
             # fallthrough edges and return edges.
             fallthrough_targets = _block_fallthrough_targets(block)
-            add_fallthrough = any(fallthrough_targets)
+            # The fallthrough may lead to a proxy block (e.g. because the
+            # following block was deleted with retarget_to_proxy).
+            add_fallthrough = any(
+                _is_fallthrough_edge(edge) for edge in block.outgoing_edges
+            )
 
             for out_edge in tuple(block.outgoing_edges):
                 if _is_call_edge(out_edge):
